@@ -8,7 +8,7 @@ import vf, starklib
 
 META = dict(
     technique="TLA+ run-independence monitor (Determinism.tla) validated by TLC against component digests recorded from serial / concurrent (1-16 threads) / async builds of the real prover on TLC-generated instances",
-    text="For each generated instance the real prover is run in separate processes as serial build, concurrent build with 1,2,3,4,7,8,16 worker threads, and async build; digests of context, commitments, out-of-domain frame, whole proof (keyed by nonce) and the verification verdict are validated by TLC against the monitor, which accepts only equal observations.",
+    text="For each generated instance the real prover is run in separate processes as serial build, concurrent build with 1,2,3,4,5,7,8,11,16,38 worker threads (quick: 1,2,4,7,16), and async build; digests of context, commitments, out-of-domain frame, whole proof (keyed by nonce) and the verification verdict are validated by TLC against the monitor, which accepts only equal observations.",
     note="The rayon scheduler is sampled (thread counts, repeated runs), not enumerated; exhaustive schedule exploration exists only at the design level (chunking model). Instances: trace lengths up to 2^11 (quick) / 2^13 (thorough).",
     design="7/C06")
 
@@ -26,6 +26,10 @@ def run(ck, tier):
     fixed = starklib.generate(ck, "DetStarkCfg.cfg", "fixed-instances", tag="DET")
     ck.require(len(fixed) >= 4, "fixed instance list missing")
     cases = fixed + gen[: (24 if thorough else 5)]
+    if thorough:
+        grid = starklib.generate(ck, "DetGridStarkCfg.cfg", "grid-instances", tag="DETGRID")
+        ck.require(len(grid) >= 24, "grid instance list missing")
+        cases += grid
     ck.require(any(c["desc"]["width"] > 8 for c in cases), "no multi-segment instance")
     ck.require(any(c["opts"]["grind"] > 0 for c in cases), "no instance with grinding")
     ck.require(any(c["desc"]["log_len"] + {2: 1, 4: 2, 8: 3, 16: 4, 32: 5, 64: 6, 128: 7}[c["opts"]["blowup"]] >= 11 for c in cases),
@@ -37,7 +41,7 @@ def run(ck, tier):
         ck.add_tlc("design:MerkleConc_" + c, r)
         if not r.ok:
             raise vf.ToolError("MerkleConc design model violates its invariants (specification bug): %s" % r.error)
-    variants = [("serial", None)] + [("concurrent", t) for t in ((1, 2, 3, 4, 7, 8, 16) if thorough else (1, 2, 4, 7, 16))] + [("async", None)]
+    variants = [("serial", None)] + [("concurrent", t) for t in ((1, 2, 3, 4, 5, 7, 8, 11, 16, 38) if thorough else (1, 2, 4, 7, 16))] + [("async", None)]
     events = []
     nruns = 0
     for variant, t in variants:
